@@ -118,7 +118,7 @@ fn weights(mode: &str) -> [usize; 31] {
         "c01" => [5, 3, 8, 8, 6, 6, 10, 6, 4, 6, 6, 3, 3, 1, 0, 2, 0, 0, 0, 0, 0, 0, 0, 0, 0, 0, 0, 0, 0, 0, 0],
         "c02" | "c16" => [5, 3, 8, 8, 6, 6, 10, 6, 3, 6, 5, 2, 2, 1, 8, 2, 1, 0, 1, 0, 0, 0, 0, 0, 0, 0, 0, 0, 0, 0, 0],
         "c05" => [2, 1, 2, 2, 1, 1, 2, 1, 1, 1, 0, 0, 0, 0, 0, 0, 8, 8, 8, 8, 0, 0, 0, 0, 0, 0, 0, 0, 0, 0, 0],
-        "c07" => [4, 2, 5, 5, 4, 4, 6, 3, 1, 3, 2, 1, 1, 1, 0, 0, 2, 0, 1, 0, 0, 12, 6, 0, 0, 0, 0, 0, 6, 0, 3],
+        "c07" => [4, 2, 5, 5, 4, 4, 6, 3, 1, 3, 2, 1, 1, 1, 0, 0, 2, 0, 1, 0, 0, 12, 6, 0, 3, 0, 0, 0, 6, 0, 3],
         "c08" => [4, 2, 5, 5, 4, 4, 6, 3, 1, 3, 2, 1, 1, 0, 0, 0, 1, 0, 1, 0, 14, 0, 0, 0, 0, 0, 0, 0, 12, 0, 0],
         "c10" => [3, 2, 4, 4, 3, 3, 5, 5, 4, 3, 2, 1, 1, 0, 1, 1, 1, 1, 0, 0, 12, 6, 4, 5, 5, 4, 4, 4, 4, 0, 5],
         "c11" => [4, 2, 5, 5, 4, 4, 6, 3, 1, 3, 2, 1, 1, 0, 0, 0, 2, 0, 1, 0, 0, 0, 0, 0, 14, 0, 0, 0, 0, 0, 0],
@@ -273,9 +273,55 @@ pub struct Session<'a, T: IteTable<'a, BddPtr<'a>> + Default> {
     pub nv: usize,
     pub nmax: usize,
     pub next_slot: usize,
+    /// the field used for the CACHED semantic hash in this builder (the per-node cache holds one value, for one field and map):
+    /// 0 = the 64-bit prime, 1..4 = the exported ~2^96 primes
+    pub cached_prime: usize,
 }
 
 impl<'a, T: IteTable<'a, BddPtr<'a>> + Default> Session<'a, T> {
+    /// A long fuse: count a diagram, run exactly 2^8 - 1 or 2^16 - 1 folds that do not touch its nodes, count it again with other
+    /// weights (a per-fold generation counter that is too narrow wraps around to the stamp the first count left on the nodes).
+    /// The two counts are ordinary `wmc` events; the burst is one `burst` event (a stuttering step of the specification).
+    fn wrap_script(&mut self, rng: &mut Rng, out: &mut Out) {
+        let nv = self.nv;
+        let cands: Vec<usize> = (2..K).filter(|i| !self.pool[*i].is_const() && !self.smoothed[*i]).collect();
+        if cands.is_empty() || nv == 0 {
+            return;
+        }
+        let a = *cands.iter().max_by_key(|i| self.pool[**i].count_nodes()).unwrap();
+        let x = self.pool[a];
+        let mut count = |rng: &mut Rng, out: &mut Out| {
+            let wq = gen_weights(rng, "real", nv, true);
+            let mut ev = json!({"ev": "wmc", "a": [a]});
+            wq.log(&mut ev);
+            if let Err(m) = count_in(x, &wq, nv, &mut ev) {
+                ev["panic"] = json!(m);
+            }
+            ev["dirty"] = json!(self.ids.dirty());
+            out.emit(ev);
+        };
+        count(rng, out);
+        // the burst: folds on a literal held by ANOTHER builder (no node in common with x), or on the true constant of this one
+        let n = if rng.coin() { 255usize } else { 65535 };
+        let other = RobddBuilder::<AllIteTable<BddPtr>>::new(VarOrder::linear_order(1));
+        let lit = other.var(VarLabel::new(0), true);
+        let inst = vec![true; nv.max(1)];
+        let r = guarded(|| {
+            let mut acc = 0usize;
+            for _ in 0..n {
+                acc += lit.evaluate(&inst) as usize;
+            }
+            acc
+        });
+        let mut ev = json!({"ev": "burst", "n": n, "a": []});
+        match r {
+            Ok(acc) => ev["val"] = json!(acc),
+            Err(m) => ev["panic"] = json!(m),
+        }
+        out.emit(ev);
+        count(rng, out);
+    }
+
     fn order_now(&self) -> Vec<usize> {
         self.b.order().in_order_iter().map(|v| v.value_usize()).collect()
     }
@@ -373,7 +419,8 @@ impl<'a, T: IteTable<'a, BddPtr<'a>> + Default> Session<'a, T> {
                 Some(guarded(|| b.compose(x, vl(v), y)))
             }
             "andl" | "orl" => {
-                let n = rng.below(5);
+                // mostly short lists (incl. the empty one); one call in four passes 17 .. 40 operands (slots repeat)
+                let n = if rng.chance(1, 4) { rng.range(17, 40) } else { rng.below(5) };
                 let slots: Vec<usize> = (0..n).map(|_| self.arg(rng, true)).collect();
                 ev["a"] = json!(slots);
                 let xs: Vec<BddPtr<'a>> = slots.iter().map(|s| self.pool[*s]).collect();
@@ -579,23 +626,35 @@ impl<'a, T: IteTable<'a, BddPtr<'a>> + Default> Session<'a, T> {
                         })
                     }
                     _ => {
-                        ev["p"] = json!("U64_LARGEST");
-                        let map = create_semantic_hash_map::<{ primes::U64_LARGEST }>(nv);
+                        // fold-based and cached hash (and those of the negation) over this builder's field for cached hashes
                         let order = b.order().clone();
-                        guarded(|| {
-                            (
-                                x.semantic_hash(&map),
-                                x.neg().semantic_hash(&map),
-                                x.cached_semantic_hash(&order, &map),
-                                x.neg().cached_semantic_hash(&order, &map),
-                            )
-                        })
-                        .map(|(v, n, c, nc)| {
-                            ev["limbs"] = json!(limbs(v.value()));
-                            ev["nlimbs"] = json!(limbs(n.value()));
-                            ev["climbs"] = json!(limbs(c.value()));
-                            ev["nclimbs"] = json!(limbs(nc.value()));
-                        })
+                        macro_rules! both {
+                            ($name:literal, $P:expr) => {{
+                                ev["p"] = json!($name);
+                                let map = create_semantic_hash_map::<{ $P }>(nv);
+                                guarded(|| {
+                                    (
+                                        x.semantic_hash(&map),
+                                        x.neg().semantic_hash(&map),
+                                        x.cached_semantic_hash(&order, &map),
+                                        x.neg().cached_semantic_hash(&order, &map),
+                                    )
+                                })
+                                .map(|(v, n, c, nc)| {
+                                    ev["limbs"] = json!(limbs(v.value()));
+                                    ev["nlimbs"] = json!(limbs(n.value()));
+                                    ev["climbs"] = json!(limbs(c.value()));
+                                    ev["nclimbs"] = json!(limbs(nc.value()));
+                                })
+                            }};
+                        }
+                        match self.cached_prime {
+                            0 => both!("U64_LARGEST", primes::U64_LARGEST),
+                            1 => both!("U128_LARGE_1", primes::U128_LARGE_1),
+                            2 => both!("U128_LARGE_2", primes::U128_LARGE_2),
+                            3 => both!("U128_LARGE_3", primes::U128_LARGE_3),
+                            _ => both!("U128_LARGE_4", primes::U128_LARGE_4),
+                        }
                     }
                 }
             }
@@ -935,8 +994,12 @@ pub fn run_segment<'a, T: IteTable<'a, BddPtr<'a>> + Default>(
         nv: cfg.n0,
         nmax: cfg.nmax,
         next_slot: 0,
+        cached_prime: rng.below(5),
     };
-    for _ in 0..len {
+    for step_no in 0..len {
+        if mode == "c07" && step_no == len / 2 {
+            s.wrap_script(rng, out);
+        }
         if mode == "c10" {
             // purity (C10): the same call, with the same parameters, is repeated on a freshly built copy of the
             // whole pool in a fresh builder; both raw answers are logged side by side
@@ -952,7 +1015,7 @@ pub fn run_segment<'a, T: IteTable<'a, BddPtr<'a>> + Default>(
                 if let Some(sl) = slot {
                     e["shape"] = json!(shape(s.pool[sl]).to_string());
                 }
-                match guarded(|| fresh_answer(&order, &before, &sm, nv, ns, r0, mode)) {
+                match guarded(|| fresh_answer(&order, &before, &sm, nv, ns, s.cached_prime, r0, mode)) {
                     Ok(f) => {
                         for k in ["val", "model", "limbs", "nlimbs", "climbs", "nclimbs", "shape", "panic"] {
                             if let Some(v) = f.get(k) {
@@ -1013,11 +1076,11 @@ fn copy_into<'a, 'b, T: IteTable<'b, BddPtr<'b>> + Default>(
 
 /// run the step that `r0` determines on fresh copies of `pool` in a fresh builder (always with the
 /// cache-everything table: the cache kind is irrelevant to purity); returns its event
-fn fresh_answer(order: &[usize], pool: &[BddPtr], smoothed: &[bool], nv: usize, next_slot: usize, mut r0: Rng, mode: &str) -> Value {
+fn fresh_answer(order: &[usize], pool: &[BddPtr], smoothed: &[bool], nv: usize, next_slot: usize, cached_prime: usize, mut r0: Rng, mode: &str) -> Value {
     let b2 = RobddBuilder::<AllIteTable<BddPtr>>::new(VarOrder::new(&order.iter().map(|v| VarLabel::new_usize(*v)).collect::<Vec<_>>()));
     let mut memo = HashMap::new();
     let p2: Vec<BddPtr> = pool.iter().map(|p| copy_into(&b2, *p, &mut memo)).collect();
-    let mut s2 = Session { b: &b2, ids: Ids::new(), pool: p2, smoothed: smoothed.to_vec(), nv, nmax: nv, next_slot };
+    let mut s2 = Session { b: &b2, ids: Ids::new(), pool: p2, smoothed: smoothed.to_vec(), nv, nmax: nv, next_slot, cached_prime };
     let mut o = Out::memory();
     s2.step(&mut r0, mode, &mut o);
     let mut e = o.mem.unwrap().pop().unwrap();
